@@ -42,7 +42,7 @@ LEVEL_TEXT = (
     "non-canonical re-encoding (idempotence). Encodings vary with module content, so generated modules against an "
     "independent encoder are what reaches them."
 )
-REGISTER = False
+REGISTER = True
 
 # open finding -> generator exclusion
 KF = {
@@ -115,10 +115,11 @@ def parse_message(msg):
         return None
 
 
-def _v8(wasm, case):
+def _v8(wasm, case, timeout_s=None):
     info = G.module_info(case["desc"])
     try:
-        ans = node().run(wasm, calls=G.call_plan(case), globals=info["globals"], memory=info["memory"], imports=info["imports"])
+        ans = node().run(wasm, calls=G.call_plan(case), globals=info["globals"], memory=info["memory"], imports=info["imports"],
+                         timeout_s=timeout_s)  # fmt: skip
     except N.NodeTimeout:
         raise Discard("node-timeout")
     ans.pop("id", None)
@@ -163,11 +164,20 @@ def check_case(case):
     except Exception as e:
         return message("c", "Module(wat) raised %s: %s\n%s" % (type(e).__name__, e, wat[:1500]), desc, exc=type(e).__name__, frame=_frame(e))
     try:
-        ans = _v8(bw, case)
+        ans = _v8(bw, case, timeout_s=30.0)
     except Discard:
-        # the reference binary finished; the binary ppci produced from the text did not
-        return message("c", "Module(wat).to_bytes() does not terminate in V8 (20 s) on invocations the reference binary "
-                       "completes; " + _ctx(ref, bw), desc, v8="timeout")
+        # The reference binary finished; the binary ppci produced from the text did not.  Guard against a
+        # merely overloaded machine: it counts only if it times out again while the reference answers fast.
+        t0 = time.time()
+        _v8(ref, case)
+        fast = time.time() - t0 < 3.0
+        try:
+            ans = _v8(bw, case, timeout_s=30.0)
+        except Discard:
+            if not fast:
+                raise Discard("node-timeout-under-load")
+            return message("c", "Module(wat).to_bytes() does not terminate in V8 (2 x 30 s) on invocations the reference binary "
+                           "completes at once; " + _ctx(ref, bw), desc, v8="timeout")
     if ans["compile"]:
         return message("c", "V8 rejects Module(wat).to_bytes(): %s\n%s" % (ans["compile"], wat[:1500]), desc, v8="reject")
     if ans != ref_ans:
@@ -239,7 +249,21 @@ def _worker(arg):
     stats = Stats()
     flags, used = flags_for(open_ids)
 
+    found = {}
+    t_first = [None]
+
     def prop(case):
+        h = core.jhash(case)
+        if t_first[0] is not None and time.time() - t_first[0] > sizes["shrink_s"]:
+            return found.get(h)  # shrink budget used up: stop at the smallest failure found so far
+        msg = _prop(case)
+        if msg is not None and classify(case, msg) not in open_ids:
+            found[h] = msg
+            if t_first[0] is None:
+                t_first[0] = time.time()
+        return msg
+
+    def _prop(case):
         msg = check_case(case)
         for kid in used:
             stats.excluded[kid] += 1
@@ -271,6 +295,6 @@ def run(ctx):
     import ppci.wasm  # noqa: F401
 
     open_ids = core.open_finding_ids(PID) - set(os.environ.get("VERIF_ASSUME_FIXED", "").split(","))  # validation of fixes/*.diff
-    sizes = dict(max_funcs=ctx.scale(4, 5), fuel=ctx.scale(40, 60), depth=ctx.scale(5, 6), budget_s=ctx.scale(60, 1500))
+    sizes = dict(max_funcs=ctx.scale(4, 5), fuel=ctx.scale(40, 60), depth=ctx.scale(5, 6), budget_s=ctx.scale(60, 1500), shrink_s=ctx.scale(30, 240))
     n = ctx.scale(256, 32000)
     ctx.pmap(_worker, [(subseed(ctx.seed, PID, w), n // 16, open_ids, sizes) for w in range(16)])
